@@ -18,7 +18,7 @@ from .. import corpus, matcher, ptrace
 
 ALL = ["expr", "empty", "compound0", "compound1", "compound2", "compound3", "ifelse", "if", "while", "do", "for", "for0",
        "fordecl", "switch", "case", "default", "label", "goto", "break", "continue", "return", "returne", "pragma_sub",
-       "pragmaop_sub", "pragma2_sub", "item_decl", "item_decl_init", "item_sassert", "item_pragma", "item_pragmaop"]
+       "pragmaop_sub", "pragma2_sub", "pragmarun_lo", "pragmarun_ol", "pragmarun_oo", "pragmarun_lol", "pragmarun_olo", "pragmarun_ool", "item_decl", "item_decl_init", "item_sassert", "item_pragma", "item_pragmaop"]
 SWITCHY = ["expr", "compound2", "compound3", "if", "ifelse", "switch", "case", "default", "label", "break", "pragma_sub",
            "item_decl", "item_pragma"]
 REDUCED = ["expr", "empty", "compound1", "compound2", "ifelse", "if", "while", "do", "for", "switch", "case", "default",
